@@ -692,3 +692,70 @@ def gen_c11(rng, n):
         else:
             d = [k, rng.choice([0, 1, 365, 366, 367, 65535, rng.randint(0, 400)])]
         yield {"op": "ruleday", "a": {"d": d}}
+
+
+# ---- C18 ----
+def gen_render(rng, n):
+    offs = [0, 1, -1, 59, -59, 60, -60, 61, 3599, -3599, 3600, -3600, 3601, 35999, 36000, -36000, 86399, 86400, -86400, 360000, -359999, I32MAX, I32MIN + 1, I32MIN]
+    for _ in range(n):
+        off = rng.choice([rng.choice(offs), rng.randint(I32MIN + 1, I32MAX), rng.randint(-100000, 100000), rng.randint(-70, 70)])
+        k = rng.random()
+        if k < 0.5:
+            t = interesting_instant(rng)
+            yield {"op": "rendert", "a": {"t": W(t), "ns": rng.choice([0, 1, 999999999, 100000000, rng.randint(0, 999999999)]), "off": off}}
+        else:
+            f = rand_fields(rng, 0.9)
+            f["off"] = off
+            f["via"] = rng.choice(["utc", "dtnew", "dtnew"])
+            yield {"op": "render", "a": f}
+
+
+# ---- C09 ----
+TZ_NAMES = ["EST", "EDT", "CET", "CEST", "<-03>", "<+0530>", "<+14>", "ABCDEFG", "NZST", "AB", "ABCDEFGH", "<A B>", "<AB", "A1B", "<A1B>", "", "<>", "<->"]
+TZ_OFFS = ["5", "05", "+5", "-5", "5:30", "-0:30", "5:30:15", "24", "25", "24:59:59", "0", "-10", "+0", "-0", "5:60", "5:", "", "00005", "-24:59:59", "12:34:56", "1:2:3", "99999999999"]
+TZ_DAYS = ["M3.2.0", "M11.1.0", "M10.5.0", "M1.1.0", "M12.5.6", "J60", "J300", "J1", "J365", "59", "300", "0", "365", "J0", "J366", "366", "M13.1.0", "M3.6.0", "M3.2.7", "M3.2", "M0.1.0", "M2.5.3", ""]
+TZ_TIMES = ["", "/2", "/0", "/24", "/25", "/-1", "/+2", "/167", "/168", "/2:30", "/-0:30", "/24:59:59", "/", "/2:60", "/-167:59:59", "/02:00:00", "/26", "/3:00:00"]
+
+
+def rand_tz_sentence(rng):
+    s = rng.choice(TZ_NAMES[:9]) + rng.choice(TZ_OFFS[:13])
+    if rng.random() < 0.8:
+        s += rng.choice(TZ_NAMES[:9])
+        if rng.random() < 0.5:
+            s += rng.choice(TZ_OFFS[:13])
+        s += "," + rng.choice(TZ_DAYS[:13]) + rng.choice(TZ_TIMES[:12]) + "," + rng.choice(TZ_DAYS[:13]) + rng.choice(TZ_TIMES[:12])
+    return s
+
+
+def gen_tzstrings(rng, n):
+    alphabet = list(b"ESTCD<>+-0123456789:,./MJ \t\x00\x80xyz")
+    for _ in range(n):
+        k = rng.random()
+        if k < 0.35:
+            s = rand_tz_sentence(rng).encode()
+        elif k < 0.5:
+            s = (rng.choice(TZ_NAMES) + rng.choice(TZ_OFFS) + rng.choice(TZ_NAMES) + rng.choice(TZ_OFFS) + "," + rng.choice(TZ_DAYS) + rng.choice(TZ_TIMES) + "," + rng.choice(TZ_DAYS) + rng.choice(TZ_TIMES)).encode()
+        else:
+            # single-byte deletion, insertion or substitution of a sentence
+            s = bytearray(rand_tz_sentence(rng).encode())
+            for _ in range(rng.choice([1, 1, 2])):
+                pos = rng.randrange(len(s) + 1)
+                op = rng.randrange(3)
+                if op == 0 and s:
+                    del s[min(pos, len(s) - 1)]
+                elif op == 1:
+                    s.insert(pos, rng.choice(alphabet))
+                elif s:
+                    s[min(pos, len(s) - 1)] = rng.choice(alphabet)
+            s = bytes(s)
+        # both public paths trim ASCII whitespace; keep interior whitespace, drop surrounding whitespace cases (C20 owns them)
+        s = s.strip(b" \t\n\x0c\r")
+        vias = ["v2", "v3"]
+        try:
+            s.decode("utf-8")
+            if b"\x00" not in s:
+                vias.append("settings")
+        except UnicodeDecodeError:
+            pass
+        for via in vias:
+            yield {"op": "tzstring", "a": {"s": list(s), "via": via}}
